@@ -62,6 +62,47 @@ VARIANTS = {
 class CompileError(Exception):
     pass
 
+# ---- build configurations demanded by the tree itself: every preprocessor conditional of the library on a symbol that a compiler
+#      option controls must be built both ways.  The unchanged tree only tests __BYTE_ORDER__ (covered by the forced big-endian
+#      variant) and __cplusplus; anything else found by the scan adds a build variant.
+COND_FLAGS = {
+    "NDEBUG": ["-DNDEBUG"], "__OPTIMIZE_SIZE__": ["-Os"], "__OPTIMIZE__": ["-O0"], "__NO_INLINE__": ["-O0"], "__STDC_HOSTED__": ["-ffreestanding"],
+    "__CHAR_UNSIGNED__": ["-funsigned-char"], "__FAST_MATH__": ["-ffast-math"], "__PIC__": ["-fPIC"], "__pic__": ["-fPIC"], "__PIE__": ["-fPIE"],
+    "_FORTIFY_SOURCE": ["-O2", "-D_FORTIFY_SOURCE=2"], "__SANITIZE_ADDRESS__": ["-fsanitize=address"], "__NO_MATH_ERRNO__": ["-fno-math-errno"],
+    "__BMI__": ["-mbmi"], "__BMI2__": ["-mbmi2"], "__LZCNT__": ["-mlzcnt"], "__POPCNT__": ["-mpopcnt"], "__MOVBE__": ["-mmovbe"],
+    "__SSE3__": ["-msse3"], "__SSSE3__": ["-mssse3"], "__SSE4_1__": ["-msse4.1"], "__SSE4_2__": ["-msse4.2"], "__AVX__": ["-mavx"], "__AVX2__": ["-mavx2"],
+    "__SHORT_ENUMS__": ["-fshort-enums"], "_OPENMP": ["-fopenmp"], "__STRICT_ANSI__": ["-std=c99"], "__WCHAR_UNSIGNED__": ["-funsigned-wchar"],
+}
+COND_NEUTRAL = {"__cplusplus", "__BYTE_ORDER__", "__ORDER_LITTLE_ENDIAN__", "__ORDER_BIG_ENDIAN__", "__GNUC__", "__clang__", "__x86_64__", "__i386__",
+                "__linux__", "__unix__", "defined", "__has_include", "__has_builtin", "__has_attribute", "__STDC_VERSION__", "__LINE__", "__FILE__"}
+
+def conditional_variants():
+    """Scan src/ and include/ of the current tree for preprocessor conditionals; returns {variant name: (compiler, flags)} for the
+    symbols that are not neutral, plus the list of symbols found."""
+    import re as _re
+    syms = set()
+    files = glob.glob(os.path.join(REPO, "src", "**", "*.[ch]"), recursive=True) + glob.glob(os.path.join(REPO, "include", "**", "*.h"), recursive=True)
+    for f in files:
+        txt = _re.sub(r"/\*.*?\*/", "", open(f, errors="replace").read(), flags=_re.S)
+        txt = _re.sub(r"\\\n", " ", txt)
+        defined_here = set(_re.findall(r"^[ \t]*#[ \t]*define[ \t]+(\w+)", txt, flags=_re.M))
+        for m in _re.finditer(r"^[ \t]*#[ \t]*(?:if|ifdef|ifndef|elif)\b([^\n]*)", txt, flags=_re.M):
+            for name in _re.findall(r"[A-Za-z_]\w*", _re.sub(r"//.*", "", m.group(1))):
+                if name in COND_NEUTRAL or name in defined_here: continue         # include guards and locally defined feature macros
+                syms.add(name)
+    # symbols defined by other files of the tree are the tree's own configuration, not the compiler's
+    own = set()
+    for f in files:
+        own |= set(_re.findall(r"^[ \t]*#[ \t]*define[ \t]+(\w+)", open(f, errors="replace").read(), flags=_re.M))
+    syms -= own
+    variants = {}
+    for s_ in sorted(syms):
+        if s_ in COND_FLAGS: flags = ["-O2"] + COND_FLAGS[s_] if not any(x.startswith("-O") for x in COND_FLAGS[s_]) else list(COND_FLAGS[s_])
+        elif s_.startswith("__"): flags = ["-O2", "-march=native"]          # a target feature macro without a known switch
+        else: flags = ["-O2", "-D%s=1" % s_]
+        variants["cond_" + _re.sub(r"\W", "", s_)] = ("gcc", flags)
+    return variants, sorted(syms)
+
 def gen_bindings(wd):
     out = os.path.join(wd, "bind")
     if os.path.isdir(out):
